@@ -25,10 +25,10 @@ def step_elements(net, via="elements", init_conditions=None, engine=None, rng=No
     'elements_links_first', 'elements_shuffled' (needs rng).  only_init: element objects to be
     (re-)initialised - the others keep the variables they already hold."""
     ic = init_conditions or {}
-    init = {o: bool(kw.pop(o, False)) for o in OPT_INIT}
-    pn_speed = bool(kw.pop("positive_next_speed", False))
-    pn_density = bool(kw.pop("positive_next_density", False))
-    pn_queue = bool(kw.pop("positive_next_queue", False))
+    init = {o: kw.pop(o, False) for o in OPT_INIT}
+    pn_speed = kw.pop("positive_next_speed", False)
+    pn_density = kw.pop("positive_next_density", False)
+    pn_queue = kw.pop("positive_next_queue", False)
     els = list(net.elements)
     if via == "elements_shuffled" and rng is not None:
         rng.shuffle(els)
@@ -97,9 +97,29 @@ def step_elements(net, via="elements", init_conditions=None, engine=None, rng=No
             callform(el.step, order, vals, 0, extra=extra)
 
 
+OPT_ALL = OPT_INIT + ("positive_next_speed", "positive_next_density", "positive_next_queue")
+
+
+def encode_opts(kw):
+    """A requested option may be written True, numpy.True_ (e.g. `(v < 0).any()`) or 1 (a 0/1 switch from a
+    configuration): all of them ask for the same clamp at zero."""
+    from vf.desc import FORMS
+
+    r = FORMS["rng"]
+    if r is None:
+        return kw
+    import numpy as np
+
+    for o in OPT_ALL:
+        if kw.get(o) is True and r.random() < 0.4:
+            kw[o] = np.True_ if r.random() < 0.5 else 1
+    return kw
+
+
 def do_step(net, via="net", rng=None, **kw):
     """One step of `net`, through ``Network.step`` or through the element-level calls; an installed
     StepMonitor observes both the same way."""
+    kw = encode_opts(kw)
     if via == "net":
         kw.pop("only_init", None)
         from vf.desc import ORDER, callform
